@@ -191,6 +191,14 @@ UNITS['c11t'] = {
     ],
 }
 
+UNITS['c10j'] = {
+    'template': 'contracts/c10j.vrs',
+    'mutants': [
+        ('empty_import_path_is_joined', 'if str_is_empty(path) {', 'if false {', ['C10.join']),
+        ('join_ignores_the_path', 'match self.url.join(path) {', 'match self.url.join("x") {', ['C10.join']),
+    ],
+}
+
 UNITS['c10'] = {
     'template': 'contracts/c10.vrs',
     'mutants': [
@@ -475,7 +483,7 @@ PROPS = {
         'not_decided': ['the edited sources are accepted and compile to the same document (two-program property)', 'edits do not overlap (distinct nodes have disjoint spans: parser invariant, out of reach)', 'rename_qualifier, prepare_rename', 'several folders containing the document: edits of the later folder are appended'],
     },
     'C10': {
-        'units': ['c10'],
+        'units': ['c10', 'c10j'],
         'level': 'proof',
         'obligation_prefixes': ['C10.'],
         'technique': 'Verus contract on the real module::load with a ghost event log injected into the real Loader trait; load-once / compile-after-imports / acyclicity as lemmas over the log',
